@@ -3,8 +3,9 @@
 
    The driver renames pids, handler ids and OS threads to dense indices and attaches to each event the
    manager m it concerns (pure renaming; the SIGCHLD callback id identifies the manager):
-     Register(m, k = command kind)     PMRegister + the harness's Cmd event of the same thread
+     Register(m, k = command kind)     SigRegister (logged under callbacksAccess) + the harness's Cmd event of the thread
      Fork(m)        WaitRunning(m) / WaitNotRunning(m)   (the isRunning test of wait())
+     FindLocked(m) / FindUnlock(m)     findProcess, both logged while processesAccess is held
      WaitpidDone(m, x = errno)         after wait()'s waitpid (0 = reaped by it, 4 = EINTR, 10 = ECHILD)
      SigEnter(h, x = number of callbacks snapshotted)   SigExec(h, m)   SigExit(h)      h = host thread
      HandlerReap(m)                    sigChildHandler's waitpid(WNOHANG) returned the pid
@@ -24,56 +25,66 @@ TraceInit == /\ child = [t \in T |-> "none"] /\ ckind = [t \in T |-> "ok"] /\ mg
              /\ reg = [t \in T |-> FALSE] /\ running = [t \in T |-> FALSE] /\ result = [t \in T |-> "unset"]
              /\ wpc = [t \in T |-> "ctor"] /\ lst = [t \in T |-> "uninit"] /\ verdict = [t \in T |-> "none"]
              /\ pending = FALSE /\ hact = {} /\ hsnap = [h \in Hosts |-> {}] /\ uaf = FALSE
+             /\ hwait = {} /\ cbl = {} /\ pl = {}
              /\ l = 1 /\ hreap = {}
 M == Ev.m
 \* the host is not suspended in the trace specification: what the host thread does while it hosts is
 \* constrained by the events themselves (its events cannot interleave with its own handler's)
-TRegister == /\ IsEvent("Register") /\ wpc[M] = "ctor"
+TRegister == /\ IsEvent("Register") /\ wpc[M] = "ctor" /\ cbl = {}      \* logged while callbacksAccess is held
              /\ mgr' = [mgr EXCEPT ![M] = "alive"] /\ reg' = [reg EXCEPT ![M] = TRUE]
              /\ ckind' = [ckind EXCEPT ![M] = Ev.k]
              /\ wpc' = [wpc EXCEPT ![M] = "fork"]
-             /\ UNCHANGED <<child, running, result, lst, verdict, pending, hact, hsnap, uaf, hreap>>
+             /\ UNCHANGED <<child, running, result, lst, verdict, pending, hact, hsnap, hwait, cbl, pl, uaf, hreap>>
 TFork == IsEvent("Fork") /\ Fork(M) /\ UNCHANGED hreap
+\* findProcess is called by wait() (the model's FindLock / FindUnlock) and again by execute() and sendSignal()
+TFindLocked == /\ IsEvent("FindLocked") /\ pl = {} /\ pl' = {M}
+               /\ wpc' = IF wpc[M] = "find" THEN [wpc EXCEPT ![M] = "found"] ELSE wpc
+               /\ UNCHANGED <<child, ckind, mgr, reg, running, result, lst, verdict, pending, hact, hsnap, hwait, cbl, uaf, hreap>>
+TFindUnlock == /\ IsEvent("FindUnlock") /\ pl = {M} /\ pl' = {}
+               /\ wpc' = IF wpc[M] = "found" THEN [wpc EXCEPT ![M] = "test"] ELSE wpc
+               /\ UNCHANGED <<child, ckind, mgr, reg, running, result, lst, verdict, pending, hact, hsnap, hwait, cbl, uaf, hreap>>
 TWaitRunning == /\ IsEvent("WaitRunning") /\ wpc[M] = "test" /\ running[M]
                 /\ wpc' = [wpc EXCEPT ![M] = "waitpid"]
-                /\ UNCHANGED <<child, ckind, mgr, reg, running, result, lst, verdict, pending, hact, hsnap, uaf, hreap>>
+                /\ UNCHANGED <<child, ckind, mgr, reg, running, result, lst, verdict, pending, hact, hsnap, hwait, cbl, pl, uaf, hreap>>
 TWaitNotRunning == /\ IsEvent("WaitNotRunning") /\ wpc[M] = "test" /\ ~running[M]
                    /\ wpc' = [wpc EXCEPT ![M] = "verdict"]
-                   /\ UNCHANGED <<child, ckind, mgr, reg, running, result, lst, verdict, pending, hact, hsnap, uaf, hreap>>
+                   /\ UNCHANGED <<child, ckind, mgr, reg, running, result, lst, verdict, pending, hact, hsnap, hwait, cbl, pl, uaf, hreap>>
 \* waitpid returned: errno 0 = it reaped the child itself
 TWaitpidOk == /\ IsEvent("WaitpidDone") /\ Ev.x = 0 /\ wpc[M] = "waitpid"
               /\ child[M] \in {"running", "zombie"}
               /\ child' = [child EXCEPT ![M] = "reaped"] /\ lst' = [lst EXCEPT ![M] = ckind[M]]
               /\ wpc' = [wpc EXCEPT ![M] = "set"]
-              /\ UNCHANGED <<ckind, mgr, reg, running, result, verdict, pending, hact, hsnap, uaf, hreap>>
+              /\ UNCHANGED <<ckind, mgr, reg, running, result, verdict, pending, hact, hsnap, hwait, cbl, pl, uaf, hreap>>
 \* errno ECHILD: somebody else (the handler) reaped it
 TWaitpidEchild == /\ IsEvent("WaitpidDone") /\ Ev.x = 10 /\ wpc[M] = "waitpid"
                   /\ child[M] = "reaped"
                   /\ wpc' = [wpc EXCEPT ![M] = IF CheckWaitpid THEN "verdict" ELSE "set"]
-                  /\ UNCHANGED <<child, ckind, mgr, reg, running, result, lst, verdict, pending, hact, hsnap, uaf, hreap>>
+                  /\ UNCHANGED <<child, ckind, mgr, reg, running, result, lst, verdict, pending, hact, hsnap, hwait, cbl, pl, uaf, hreap>>
 \* errno EINTR: a handler ran on this thread while it was blocked
 TWaitpidEintr == /\ IsEvent("WaitpidDone") /\ Ev.x = 4 /\ wpc[M] = "waitpid"
                  /\ wpc' = [wpc EXCEPT ![M] = IF CheckWaitpid THEN "waitpid" ELSE "set"]
-                 /\ UNCHANGED <<child, ckind, mgr, reg, running, result, lst, verdict, pending, hact, hsnap, uaf, hreap>>
-TSigEnter == /\ IsEvent("SigEnter") /\ Ev.h \notin hact
+                 /\ UNCHANGED <<child, ckind, mgr, reg, running, result, lst, verdict, pending, hact, hsnap, hwait, cbl, pl, uaf, hreap>>
+\* Deliver and Snap in one step: the event is logged once callbacksAccess is held
+TSigEnter == /\ IsEvent("SigEnter") /\ Ev.h \notin hact /\ cbl = {}
              /\ hact' = hact \cup {Ev.h}
+             /\ cbl' = IF ExecLocked THEN {<<"handler", Ev.h>>} ELSE {}
              /\ hsnap' = [hsnap EXCEPT ![Ev.h] = {m \in T : reg[m]}]
              /\ Cardinality(hsnap'[Ev.h]) = Ev.x          \* logged snapshot size = model's
-             /\ UNCHANGED <<child, ckind, mgr, reg, running, result, wpc, lst, verdict, pending, uaf, hreap>>
+             /\ UNCHANGED <<child, ckind, mgr, reg, running, result, wpc, lst, verdict, pending, hwait, pl, uaf, hreap>>
 TSigExec == /\ IsEvent("SigExec") /\ Ev.h \in hact /\ M \in hsnap[Ev.h]
             /\ hsnap' = [hsnap EXCEPT ![Ev.h] = @ \ {M}]
             /\ uaf' = (uaf \/ mgr[M] # "alive" \/ ~reg[M])
-            /\ UNCHANGED <<child, ckind, mgr, reg, running, result, wpc, lst, verdict, pending, hact, hreap>>
-THandlerReap == /\ IsEvent("HandlerReap") /\ running[M] /\ child[M] \in {"running", "zombie"}
+            /\ UNCHANGED <<child, ckind, mgr, reg, running, result, wpc, lst, verdict, pending, hact, hwait, cbl, pl, hreap>>
+THandlerReap == /\ IsEvent("HandlerReap") /\ running[M] /\ pl = {}     \* the handler holds processesAccess /\ child[M] \in {"running", "zombie"}
                 /\ child' = [child EXCEPT ![M] = "reaped"]
                 /\ hreap' = hreap \cup {M}
-                /\ UNCHANGED <<ckind, mgr, reg, running, result, wpc, lst, verdict, pending, hact, hsnap, uaf>>
+                /\ UNCHANGED <<ckind, mgr, reg, running, result, wpc, lst, verdict, pending, hact, hsnap, hwait, cbl, pl, uaf>>
 \* setProcessExitStatus: from the handler (right after HandlerReap) ...
 TSetExitH == /\ IsEvent("SetExit") /\ M \in hreap
              /\ Ev.k = ckind[M]                              \* the handler read the status from waitpid
              /\ result' = [result EXCEPT ![M] = Ev.k] /\ running' = [running EXCEPT ![M] = FALSE]
              /\ hreap' = hreap \ {M}
-             /\ UNCHANGED <<child, ckind, mgr, reg, wpc, lst, verdict, pending, hact, hsnap, uaf>>
+             /\ UNCHANGED <<child, ckind, mgr, reg, wpc, lst, verdict, pending, hact, hsnap, hwait, cbl, pl, uaf>>
 \* ... or from wait()
 TSetExitW == /\ IsEvent("SetExit") /\ M \notin hreap /\ wpc[M] = "set"
              /\ Set(M) /\ result'[M] = Ev.k
@@ -86,13 +97,14 @@ TVerdict == /\ IsEvent("Verdict")
             /\ verdict' = [verdict EXCEPT ![M] = IF result[M] = "unset" THEN "garbage" ELSE result[M]]
             /\ Ev.k = verdict'[M]                            \* what execute() reported = what was recorded
             /\ wpc' = [wpc EXCEPT ![M] = "remove"]
-            /\ UNCHANGED <<child, ckind, mgr, reg, lst, pending, hact, hsnap, uaf, hreap>>
+            /\ UNCHANGED <<child, ckind, mgr, reg, lst, pending, hact, hsnap, hwait, cbl, pl, uaf, hreap>>
 TSigRemove == IsEvent("SigRemove") /\ Remove(M) /\ UNCHANGED hreap
 TDestroyed == IsEvent("Destroyed") /\ Destroy(M) /\ UNCHANGED hreap
 TSigExit == /\ IsEvent("SigExit") /\ Ev.h \in hact /\ hsnap[Ev.h] = {}
             /\ hact' = hact \ {Ev.h}
-            /\ UNCHANGED <<child, ckind, mgr, reg, running, result, wpc, lst, verdict, pending, hsnap, uaf, hreap>>
-TraceNext == \/ TRegister \/ TFork \/ TWaitRunning \/ TWaitNotRunning \/ TWaitpidOk \/ TWaitpidEchild \/ TWaitpidEintr
+            /\ cbl' = IF ExecLocked THEN {} ELSE cbl
+            /\ UNCHANGED <<child, ckind, mgr, reg, running, result, wpc, lst, verdict, pending, hsnap, hwait, pl, uaf, hreap>>
+TraceNext == \/ TRegister \/ TFork \/ TFindLocked \/ TFindUnlock \/ TWaitRunning \/ TWaitNotRunning \/ TWaitpidOk \/ TWaitpidEchild \/ TWaitpidEintr
              \/ TSigEnter \/ TSigExec \/ THandlerReap \/ TSetExitH \/ TSetExitW \/ TVerdict \/ TSigRemove
              \/ TDestroyed \/ TSigExit
 TraceSpec == TraceInit /\ [][TraceNext]_tvars
